@@ -393,8 +393,31 @@ class KeywordizeCalls(ast.NodeTransformer):
         return node
 
 
+class KeywordizeImported(ast.NodeTransformer):
+    """`Beta(n, 1, 0, None, 0)` becomes `Beta(name=n, value=1, ...)` for callees defined once anywhere in the package
+    (functions, constructors, methods with a package-unique name), using the signature table of the normal form"""
+
+    def visit_Call(self, node):
+        from . import normal
+
+        self.generic_visit(node)
+        if any(isinstance(a, ast.Starred) for a in node.args) or any(k.arg is None for k in node.keywords) or not node.args:
+            return node
+        params = None
+        if isinstance(node.func, ast.Name):
+            params = normal.SIGS.get(node.func.id)
+        elif isinstance(node.func, ast.Attribute) and not (isinstance(node.func.value, ast.Name) and node.func.value.id in ('self', 'super')):
+            params = normal.METHOD_SIGS.get(node.func.attr)
+        if not params or len(node.args) > len(params):
+            return node
+        node.keywords = [ast.keyword(arg=params[i], value=a) for i, a in enumerate(node.args)] + node.keywords
+        node.args = []
+        return node
+
+
 TRANSFORMS = {
     'all-together': lambda: AllTogether(),
+    'keywordize-imported': lambda: KeywordizeImported(),
     'keywordize-calls': lambda: KeywordizeCalls(),
     'add-unrelated': lambda: AddUnrelated(),
     'strip-docstrings': lambda: StripDocstrings(),
